@@ -133,11 +133,14 @@ def main_thread_cases(r):
     return out
 
 
-def main_thread_exit(ctx):
+def main_thread_exit(ctx, cases=None):
     """the same harness with the script on the main thread, one process per case, built as the tests build the library
     and as a release build (-DNDEBUG): the events printed while the process exits must be the model's"""
     import subprocess
-    cases = main_thread_cases(ctx.rng)
+    if cases is None:
+        cases = main_thread_cases(ctx.rng)
+    if not cases:
+        return
     model = ctx.run_model(cases)
     for tag, extra in (("mainthr", ["-DC02_MAIN_THREAD"]), ("mainthr_ndebug", ["-DC02_MAIN_THREAD", "-DNDEBUG"])):
         exe = ctx.build_harness("c02", tag=tag, extra=extra)
@@ -212,3 +215,6 @@ def run(ctx):
     ctx.correspond("scope-scripts", exe, cases, oracle=oracle, nontrivial=lambda c: len(c) >= 4, timeout=1200)
     if ctx.replay_cases is None:
         main_thread_exit(ctx)
+    else:
+        # a replayed witness of the main-thread variant: single-thread scripts that end by leaving the thread
+        main_thread_exit(ctx, [c for c in ctx.replay_cases if "sc 0 exit" in c and all(l.startswith("sc 0 ") or l == "sc end" for l in c)])
